@@ -441,7 +441,9 @@ def check_C03(tier, seed):
                          '(every builtin/operator that returns or mutates a container): SizeInv on every heap object incl. transient '
                          'results, AtCapFails (ParserError, container unchanged); code: the same scenario descriptors rendered at the true '
                          'constant (lengths 0, 1, 9998, 9999, 10000, 10001) and validated by TLC with Cap = 10000')
-    consts = {'MaxLen': '2' if quick else '3'}
+    # (all sequences of three of the 68 operations are 1.9 million scenarios - more than an hour of TLC; the thorough tier explores
+    #  the pairs exhaustively like the quick tier and validates random triples at real scale instead)
+    consts = {'MaxLen': '2'}
     res = engine.model_check(rep, 'MC_C03.tla', 'MC_C03.cfg', consts=consts, timeout=900 if quick else 3400, coverage=not quick)
     rep.exhaustive = True
     for dev in ('ConcatUnchecked', 'ShortAddUnchecked', 'StrToListUnchecked'):
@@ -458,6 +460,10 @@ def check_C03(tier, seed):
         rng = random.Random(seed)
         pick = rng.sample(descs, min(len(descs), 400 if quick else 5000))
         scns = [_c03_scenario(d, optrees[0]) for d in pick]
+        if not quick:
+            nops = len(optrees[0])
+            scns += [_c03_scenario({'ni': rng.randrange(1, 7), 'o1': rng.randrange(1, nops + 1), 'o2': rng.randrange(1, nops + 1), 'o3': rng.randrange(1, nops + 1)},
+                                   optrees[0]) for _ in range(1500)]
         rep.notes['direction_a'] = {'scenarios_explored_by_tlc': len(descs), 'replayed_at_real_scale': len(scns)}
         cases = engine.run_family(rep, scns)
         engine.judge_cases(rep, cases, devs, what='cap scenario')
